@@ -92,3 +92,16 @@ func VerifNewBlock(kind string, content []byte, cached bool, alg string, enc int
 	}
 	return nil, nil
 }
+
+// VerifPolicies sets the four error policies from integers (0 ignore, 1 warn, 2 fail).
+func VerifPolicies(syntax, spec, unknown, block int) WarcRecordOption {
+	return newFuncWarcRecordOption(func(o *warcRecordOptions) {
+		o.errSyntax, o.errSpec, o.errUnknownRecordType, o.errBlock =
+			errorPolicy(syntax), errorPolicy(spec), errorPolicy(unknown), errorPolicy(block)
+	})
+}
+
+func VerifDigestEncoding(e int) WarcRecordOption { return WithDefaultDigestEncoding(digestEncoding(e)) }
+
+// VerifSkipParseBlock is WithSkipParseBlock (kept separate so that a change of that option is visible).
+func VerifSkipParseBlock() WarcRecordOption { return WithSkipParseBlock() }
